@@ -388,7 +388,127 @@ class SheetRows(Harness):
         before, after = native.unhx(r[1][0]), native.unhx(r[1][1])
         return before != after, 'row settings before save %r, after reload %r' % (before, after)
 
+STY = 'structs::stylesheet::Stylesheet::'
+class StylesheetTrip(Harness):
+    """styles.xml as a whole: two cell styles interned, written, read back and resolved through cellXfs"""
+    name = 'stylesheet.write_read'; property_id = 'C05'
+    entry = [STY + 'set_style', STY + 'write_to', STY + 'set_attributes', STY + 'make_style', STY + 'get_style_by_cell_format', 'structs::cell_formats::CellFormats::set_attributes', 'structs::fonts::Fonts::set_attributes', 'structs::numbering_formats::NumberingFormats::set_attributes']
+    classes = {}
+    def __init__(self, tier):
+        self.doc = 'two cell styles (bold or not, horizontal alignment set or not, number format absent / built-in 0.00 / a custom code of one symbolic character, locked flag set or not) interned by the real Stylesheet::set_style, the whole style sheet written by the real Stylesheet::write_to and read back by the real Stylesheet::set_attributes + make_style: the style found under each cell-format index has the same bold flag, alignment, number-format code and protection as the style that was interned'
+        self.bounds = {'styles': 2, 'bold': [False, True], 'alignment': ['unset', 'center'], 'number_format': ['none', 'built-in 0.00', 'custom: one character out of a # ;'], 'protection': ['unset', 'locked=false'], 'fills_borders': 'default'}
+    def setup(self, it):
+        from engine import xmlmodel
+        cm.install(it); cm.install_digests(it); xmlmodel.install(it); xmlmodel.install_events(it)
+    def style(self, it, ctx, tag):
+        st = Box_(it.call('<structs::style::Style as std::default::Default>::default', []))
+        d = {'bold': ctx.branch(ctx.sym_bool(tag + 'bold')), 'center': ctx.branch(ctx.sym_bool(tag + 'center')), 'unlocked': ctx.branch(ctx.sym_bool(tag + 'unlocked'))}
+        nf = ctx.sym_int(tag + 'nf', 0, 2); d['nf'] = next(k for k in range(3) if ctx.branch(nf == k)); d['code'] = None
+        if d['bold']: it.call('structs::font::Font::set_bold', [it.call('structs::style::Style::get_font_mut', [Ref(st)]), True])
+        if d['center']: it.call('structs::alignment::Alignment::set_horizontal', [it.call('structs::style::Style::get_alignment_mut', [Ref(st)]), Adt(0, [], 'HorizontalAlignmentValues')])
+        if d['unlocked']: it.call('structs::protection::Protection::set_locked', [it.call('structs::style::Style::get_protection_mut', [Ref(st)]), False])
+        if d['nf'] == 1: d['code'] = [ord(c) for c in '0.00']
+        elif d['nf'] == 2:
+            c = ctx.sym_int(tag + 'code', 35, 97); ctx.define(z3.Or(c == 97, c == 35, c == 59)); d['code'] = [c]
+        if d['code'] is not None: it.call(NF + 'set_format_code::<&str>', [it.call('structs::style::Style::get_number_format_mut', [Ref(st)]), sref(SStr(d['code']))])
+        return st, d
+    def observe(self, it, style):
+        sr = Ref(Box_(style))
+        f = it.call('structs::style::Style::get_font', [sr]); a = it.call('structs::style::Style::get_alignment', [sr]); n = it.call('structs::style::Style::get_number_format', [sr]); p_ = it.call('structs::style::Style::get_protection', [sr])
+        bold = deref_all(it.call('structs::font::Font::get_bold', [f.fields[0]])) if f.variant == 1 else False
+        center = a.variant == 1 and deref_all(it.call('structs::alignment::Alignment::get_horizontal', [a.fields[0]])).variant == 0
+        # effective values: no number format is General, no protection element is locked
+        code = list(deref_all(it.call(NF + 'get_format_code', [n.fields[0]])).chars) if n.variant == 1 else [ord(c) for c in 'General']
+        locked = deref_all(it.call('structs::protection::Protection::get_locked', [p_.fields[0]])) if p_.variant == 1 else True
+        return bold, center, code, locked
+    def run(self, it, ctx, res):
+        from engine import xmlmodel
+        it.world = cm.World()
+        info = {}
+        try:
+            sheet = Box_(it.call('<structs::stylesheet::Stylesheet as std::default::Default>::default', []))
+            it.call(STY + 'set_defalut_value', [Ref(sheet)])
+            styles = [self.style(it, ctx, 'a_'), self.style(it, ctx, 'b_')]
+            info['styles'] = [{k: (str(v) if k == 'code' else v) for k, v in d.items()} for _, d in styles]
+            idx = [it.call(STY + 'set_style', [Ref(sheet), Ref(st)]) for st, _ in styles]
+            rec = xmlmodel.Recorder()
+            it.call(STY + 'write_to', [Ref(sheet), Ref(Box_(rec))])
+            evs = rec.events
+            back = Box_(it.call('<structs::stylesheet::Stylesheet as std::default::Default>::default', []))
+            rd = xmlmodel.XmlReader(evs[1:], trim=True)
+            it.call(STY + 'set_attributes::<&[u8]>', [Ref(back), Ref(Box_(rd)), Ref(Box_(evs[0].fields[0]))])
+            it.call(STY + 'make_style', [Ref(back)])
+            got = [self.observe(it, it.call(STY + 'get_style', [Ref(back), i])) for i in idx]
+            want = [self.observe(it, st.v) for st, _ in styles]
+        except Panic as e:
+            self.fail(ctx, res, 'no-panic', '%s @ %s' % (e, str(getattr(e, '_where', ''))[:160]), info=info); return
+        from harness.rt import conj
+        for k, (g, w) in enumerate(zip(got, want)):
+            same_code = (g[2] is None) == (w[2] is None) and (g[2] is None or (len(g[2]) == len(w[2]) and chars_eq(g[2], w[2])))
+            self.oblige(ctx, res, 'style-under-its-index-is-the-interned-style', conj([g[0] == w[0], g[1] == w[1], same_code, g[3] == w[3]]), info=dict(info, style=k, index=str(idx[k])))
+    def case_of(self, v):
+        m = v['model']
+        f = lambda t: {'bold': bool(m.get(t + 'bold')), 'center': bool(m.get(t + 'center')), 'unlocked': bool(m.get(t + 'unlocked')), 'nf': m.get(t + 'nf', 0), 'code': chr(m[t + 'code']) if (t + 'code') in m else ''}
+        c = {'a': f('a_'), 'b': f('b_'), 'oblig': v['oblig']}; c['show'] = dict(c); return c
+    def confirm(self, case, profile):
+        enc = lambda d: '%d,%d,%d,%d,%s' % (d['bold'], d['center'], d['unlocked'], d['nf'], (d['code'] or 'a').encode().hex())
+        r = native.run_cases([['styles_roundtrip', enc(case['a']), enc(case['b'])]], profile, timeout_each=60)[0]
+        if r[0] != 'ok': return True, 'styles %r -> %r' % (case['show'], r)
+        before, after = native.unhx(r[1][0]), native.unhx(r[1][1])
+        return before != after, 'cell styles A1/A2 before save %r, after reload %r' % (before, after)
+
+class StylesheetFileNumFmt(StylesheetTrip):
+    """a styles part as other producers write it: a <numFmt> declared under an id the library treats as built-in (Excel does
+    this for locale-dependent formats, e.g. 14): the file's declaration is what the cell format means"""
+    name = 'stylesheet.read_declared_numfmt'
+    def __init__(self, tier):
+        super().__init__(tier)
+        self.doc = 'the XML of a style sheet with one custom number format (written by the real Stylesheet::write_to), with the id of its <numFmt> and of the cell format that uses it replaced by a symbolic id out of 14, 22, 44, 49, 164, 176 (ids of the built-in table and free ids), read by the real Stylesheet::set_attributes + make_style: the cell format shows the code the file declares for that id'
+        self.bounds = {'declared_id': [14, 22, 44, 49, 164, 176], 'code': 'one symbolic character out of a # ;'}
+    def run(self, it, ctx, res):
+        from engine import xmlmodel
+        it.world = cm.World()
+        ids = [14, 22, 44, 49, 164, 176]
+        di = ctx.sym_int('declared_id', 0, len(ids) - 1); did = ids[next(k for k in range(len(ids)) if ctx.branch(di == k))]
+        c = ctx.sym_int('code', 35, 97); ctx.define(z3.Or(c == 97, c == 35, c == 59))
+        info = {'declared_id': did}
+        try:
+            sheet = Box_(it.call('<structs::stylesheet::Stylesheet as std::default::Default>::default', []))
+            it.call(STY + 'set_defalut_value', [Ref(sheet)])
+            st = Box_(it.call('<structs::style::Style as std::default::Default>::default', []))
+            it.call(NF + 'set_format_code::<&str>', [it.call('structs::style::Style::get_number_format_mut', [Ref(st)]), sref(SStr([c]))])
+            idx = it.call(STY + 'set_style', [Ref(sheet), Ref(st)])
+            rec = xmlmodel.Recorder()
+            it.call(STY + 'write_to', [Ref(sheet), Ref(Box_(rec))])
+            evs = rec.events; old = None
+            for ev in evs:          # the id the library gave the format -> the declared id, in <numFmt> and in every <xf>
+                el = deref_all(ev.fields[0]) if ev.fields else None
+                if getattr(el, 'name', None) == 'numFmt':
+                    for k, (key, val) in enumerate(el.attrs):
+                        if key == 'numFmtId': old = list(val); el.attrs[k] = (key, [ord(ch) for ch in str(did)])
+            if old is None: self.fail(ctx, res, 'custom-format-written', 'no numFmt element', info=info); return
+            for ev in evs:
+                el = deref_all(ev.fields[0]) if ev.fields else None
+                if getattr(el, 'name', None) == 'xf':
+                    for k, (key, val) in enumerate(el.attrs):
+                        if key == 'numFmtId' and list(val) == old: el.attrs[k] = (key, [ord(ch) for ch in str(did)])
+            back = Box_(it.call('<structs::stylesheet::Stylesheet as std::default::Default>::default', []))
+            rd = xmlmodel.XmlReader(evs[1:], trim=True)
+            it.call(STY + 'set_attributes::<&[u8]>', [Ref(back), Ref(Box_(rd)), Ref(Box_(evs[0].fields[0]))])
+            it.call(STY + 'make_style', [Ref(back)])
+            got = self.observe(it, it.call(STY + 'get_style', [Ref(back), idx]))
+        except Panic as e:
+            self.fail(ctx, res, 'no-panic', '%s @ %s' % (e, str(getattr(e, '_where', ''))[:160]), info=info); return
+        self.oblige(ctx, res, 'cell-format-shows-the-code-the-file-declares', (len(got[2]) == 1) and (got[2][0] == c), info=dict(info, got_len=len(got[2])))
+    def case_of(self, v):
+        m = v['model']; c = {'declared_id': [14, 22, 44, 49, 164, 176][m.get('declared_id', 0)], 'code': chr(m['code']), 'oblig': v['oblig']}; c['show'] = dict(c); return c
+    def confirm(self, case, profile):
+        r = native.run_cases([['declared_numfmt', case['declared_id'], case['code']]], profile, timeout_each=60)[0]
+        if r[0] != 'ok': return True, 'declared numFmt %r -> %r' % (case['show'], r)
+        got = native.unhx(r[1][0])
+        return got != case['code'], 'a file declaring <numFmt numFmtId="%d" formatCode=%r> and using it for A1: A1 shows format %r' % (case['declared_id'], case['code'], got)
+
 def harnesses(tier):
     from harness import rt
-    return [FontKey(tier), FillKey(tier), NumFmtTrip(tier), NumFmtIntern(tier), ColumnsTrip(tier), SheetRows(tier)] + rt.harnesses_for('C05', tier)
+    return [FontKey(tier), FillKey(tier), NumFmtTrip(tier), NumFmtIntern(tier), ColumnsTrip(tier), SheetRows(tier), StylesheetTrip(tier), StylesheetFileNumFmt(tier)] + rt.harnesses_for('C05', tier)
 OPTIONS = {'want_smir': True}
